@@ -84,7 +84,7 @@ def run(ctx):
     neg = negative_control(ctx, docs, recs)
     # guards are enforced unless there is a violation that is not a listed known finding (which exits 1 anyway)
     if not findings.classify(ctx.prop, ev["violations"])[1]:
-        for k in ("doc_ok", "stream_ok", "edit_rejected", "edit_accepted_either", "limit_rejected_required", "limit_accepted"):
+        for k in ("doc_ok", "stream_ok", "edit_rejected", "edit_accepted_either", "limit_rejected_required", "limit_accepted", "window_ok"):
             if ev["stats"].get(k, 0) == 0:
                 raise InfraError("vacuity guard: %s = 0" % k)
         if not neg:
@@ -110,7 +110,9 @@ def run(ctx):
                 "Decode(Encode(a)) and stream Decoder (streams of 1-3, default and 16-byte buffer) return identical headers, "
                 "body, revision, signature; every edit class with Expect=reject is rejected by Decode and both stream decoders; "
                 "no panic/timeout; accepted inputs satisfy Encode(Decode(b))=b and re-decode to equal fields; "
-                "sizes above NewDecoderStressed limits are rejected (LimitExpect evaluated by TLC on the observations)",
+                "header-block and signature lengths swept across the decoder's peek-window boundaries (4096/8192/16384 +-3 with the "
+                "default buffer, every length 1..300 and 512/1024 +-3 with a 16-byte buffer) in two-assertion streams: stream decode = "
+                "one-shot Decode; sizes above NewDecoderStressed limits are rejected (LimitExpect evaluated by TLC on the observations)",
         "tlc_config": cfg, "generated_values": table["counts"]["values"], "generated_documents": len(docs),
         "documents_without_empty_collections": len(rt), "edit_classes": len(table["edits"]),
         "edit_documents": [doc_show(docs[i]) for i in edit_docs][:12],
@@ -185,6 +187,19 @@ def evaluate(ctx, docs, recs):
                     desc="edit %s/%s expected %s but %s gave %s (%s)" % (r["class"], b["variant"], r["expect"], b["decoder"],
                                                                     b["res"], (b.get("msg") or "")[:200]),
                     replay={"document": docs[r["doc"]], "edit": r["class"], "bad": b}))
+        elif r["kind"] == "window":
+            inc("window_total")
+            if r["res"] == "ok":
+                inc("window_ok")
+            elif r["res"] == "harness-piece-invalid":
+                raise InfraError("window sweep built an input that one-shot Decode rejects: %s" % r)
+            else:
+                violations.append(Violation(
+                    key="window %s len=%d buf=%s body=%s: %s" % (r["what"], r["len"], r["buf"] or "default", r["body"], r["res"]),
+                    desc="stream of two assertions, %s length %d (decoder buffer %s): the stream decoder %s while one-shot Decode "
+                         "accepts each piece (%s)" % ({"hdr": "header block", "sig": "signature"}[r["what"]], r["len"],
+                                                     r["buf"] or "4096 (default)", r["res"], (r.get("msg") or "")[:200]),
+                    replay=r))
         elif r["kind"] == "limit":
             must = r["h"] > r["maxh"] or r["b"] > r["maxb"] or r["s"] > r["maxs"]
             if r["out"] in ("panic", "timeout") or r["out"].startswith("law:"):
